@@ -1,23 +1,16 @@
-// ---- prelude_fieldops: the BN254 scalar field, Poseidon, Keccak and the RNGs as specification vocabulary ----
+// ---- prelude_fieldops: field ARITHMETIC of ark_bn254::Fr, Poseidon, Keccak and the RNGs as specification vocabulary ----
+// Layered on prelude_common.rs and prelude_field.rs (which declares the type `Fr` with `view(): nat`, the modulus
+// `P()`, `le_nat`, the order on Fr and the std conversions): include those two first.
 // Needs in the including template (outside verus!):
 //   use vstd::prelude::*; use vstd::arithmetic::div_mod::*; use vstd::arithmetic::mul::*;
 // Everything in this file that is not proved is an ASSUMPTION about a dependency (ark-ff, tiny-keccak,
 // rand_chacha, rand) or about the model; each one carries a comment `ASSUMED(dep|model)`.
 
-// ---- the modulus -------------------------------------------------------------------------------
-// P = 21888242871839275222246405745257275088548364400416034343698204186575808495617
-//   = 0x30644e72e131a029_b85045b68181585d_2833e84879b97091_43e1f593f0000001   (ark_bn254::Fr, circom's field)
-// (Verus has no integer literal above 128 bits: P is assembled from its four 64-bit limbs.)
-#[allow(non_snake_case)]
-pub open spec fn W64() -> nat { 0x1_0000_0000_0000_0000 }
-#[allow(non_snake_case)]
-pub open spec fn P() -> nat {
-    0x43e1f593f0000001nat + W64() * (0x2833e84879b97091nat + W64() * (0xb85045b68181585dnat + W64() * 0x30644e72e131a029nat))
-}
+// P() = 21888242871839275222246405745257275088548364400416034343698204186575808495617 (prelude_field.rs)
 pub proof fn lemma_p_bounds()
-    ensures 0x1_0000 < P(), P() < W64() * W64() * W64() * W64()
+    ensures 0x1_0000 < P(), P() < 0x1_0000_0000_0000_0000 * 0x1_0000_0000_0000_0000 * (0x1_0000_0000_0000_0000 * 0x1_0000_0000_0000_0000)
 {
-    assert(0x1_0000 < P() && P() < W64() * W64() * W64() * W64()) by (compute);
+    assert(0x1_0000 < P() && P() < 0x1_0000_0000_0000_0000 * 0x1_0000_0000_0000_0000 * (0x1_0000_0000_0000_0000 * 0x1_0000_0000_0000_0000)) by (compute);
 }
 
 // ---- field operations on canonical representatives (nat < P) -----------------------------------
@@ -131,27 +124,7 @@ pub proof fn lemma_f_recover_line(a0: nat, a1: nat, x1: nat, x2: nat)
     lemma_f_add_sub_cancel(a0, f_mul(x1, a1));
 }
 
-// ---- the field element type --------------------------------------------------------------------
-// Re-declaration of ark_bn254::Fr (= ark_ff::Fp256<MontBackend<FrConfig, 4>>): an opaque value whose
-// only observable is the canonical integer `view()`.
-#[verifier::external_body]
-#[derive(Clone, Copy)]
-pub struct Fr { limbs: [u64; 4] }
-
-impl Fr {
-    pub uninterp spec fn view(&self) -> nat;
-}
-// ASSUMED(dep): every ark-ff field element is a residue < P ...
-#[verifier::external_body]
-pub broadcast proof fn axiom_fr_canonical(a: Fr)
-    ensures #[trigger] a.view() < P()
-{}
-// ASSUMED(dep): ... stored in one canonical (fully reduced Montgomery) form: equal integers, equal values
-#[verifier::external_body]
-pub proof fn axiom_fr_view_inj(a: Fr, b: Fr)
-    requires a.view() == b.view()
-    ensures a == b
-{}
+// ---- the operators of the field element type (the type itself: prelude_field.rs) --------------------
 // ASSUMED(dep): ark-ff `+ - *` on Fp are the field operations on canonical values; they do not panic.
 impl vstd::std_specs::ops::AddSpecImpl for Fr {
     open spec fn obeys_add_spec() -> bool { false }
@@ -203,28 +176,8 @@ impl core::ops::Div for Fr {
         ensures r.view() == f_div(self.view(), rhs.view())
     { unimplemented!() }
 }
-// ASSUMED(dep): ark-ff PartialEq / PartialOrd on Fp compare the canonical integers (`into_bigint()`)
-impl vstd::std_specs::cmp::PartialEqSpecImpl for Fr {
-    open spec fn obeys_eq_spec() -> bool { true }
-    open spec fn eq_spec(&self, o: &Fr) -> bool { self.view() == o.view() }
-}
-impl PartialEq for Fr {
-    #[verifier::external_body]
-    fn eq(&self, o: &Fr) -> (r: bool) { unimplemented!() }
-}
+// (PartialEq / PartialOrd of Fr: prelude_field.rs)   ark-ff's Fp is Eq
 impl Eq for Fr {}
-impl vstd::std_specs::cmp::PartialOrdSpecImpl for Fr {
-    open spec fn obeys_partial_cmp_spec() -> bool { true }
-    open spec fn partial_cmp_spec(&self, o: &Fr) -> Option<core::cmp::Ordering> {
-        if self.view() < o.view() { Some(core::cmp::Ordering::Less) }
-        else if self.view() == o.view() { Some(core::cmp::Ordering::Equal) }
-        else { Some(core::cmp::Ordering::Greater) }
-    }
-}
-impl PartialOrd for Fr {
-    #[verifier::external_body]
-    fn partial_cmp(&self, o: &Fr) -> (r: Option<core::cmp::Ordering>) { unimplemented!() }
-}
 // ASSUMED(dep): Fr::from(small unsigned integer) is that integer (all of them are < P)
 impl From<u8> for Fr {
     #[verifier::external_body]
@@ -263,12 +216,7 @@ pub open spec fn poseidon_injective() -> bool {
 }
 
 // ---- bytes -> integers, Keccak -----------------------------------------------------------------
-// little-endian value of a byte string
-pub open spec fn le_nat(s: Seq<u8>) -> nat
-    decreases s.len()
-{
-    if s.len() == 0 { 0 } else { (s[0] as nat) + 256 * le_nat(s.subrange(1, s.len() as int)) }
-}
+// (le_nat, the little-endian value of a byte string: prelude_field.rs)
 pub uninterp spec fn keccak256(input: Seq<u8>) -> Seq<u8>;
 
 // Re-declaration of tiny_keccak::Keccak (v256 / update / finalize); `absorbed` is the ghost input so far.
